@@ -197,6 +197,27 @@ CLAIMS = {
                      'transition tables) + CFG guard-dominance + '
                      'exception-escape analysis (ast)',
     },
+    'C16': {
+        'text': 'Decides the verification structure: SSHKey.verify checks '
+                'the blob\'s algorithm name against the key\'s own accepted '
+                'set before verify_ssh; all eight verify_ssh implementations '
+                'consume the whole blob (check_end) and return truthy only '
+                'from the primitive over the caller\'s data; the accepted set '
+                'is set(own sig_algorithms) in the same scope; certificate '
+                'construction verifies the CA signature over the bytes '
+                'consumed between CA key and signature, requires check_end, a '
+                'known type and understood critical options; the certificate '
+                'validity table (864 states); validate_sshsig as a complete '
+                'table over {verified, certificate, signer listed, CA listed, '
+                'certificate valid} with the exact arguments of each call; '
+                'allowed-signers match_options over 96 states; signer and '
+                'verifier share _signed_data covering namespace, hash name '
+                'and message.',
+        'note': TB + 'not decided: that a byte edit flips the cryptographic '
+                'verdict (primitives trusted); X.509 chains.',
+        'technique': 'CFG guard-dominance + data-dependence + finite '
+                     'abstract evaluation + sibling agreement (ast)',
+    },
 }
 
 PENDING = 'check not built yet in this session (planned, see DESIGN.md section 5)'
